@@ -8,7 +8,7 @@ import file_common
 
 def run(chk, replay=None):
     t = 't' if chk.thorough else 'q'
-    cfgs = ['c11a_' + t]
+    cfgs = ['c11a_' + t, 'c11b_' + t, 'c11c_' + t]
     sims = [('all_life', 2500 if chk.thorough else 200, 30)]
     def judge(r):
         a = r['step']['a']
